@@ -393,7 +393,7 @@ package data
 //@   requires forall(k, 0, len(nd.Dims), nd.OffsetStep[k] == nd.Offset[k]*nd.Step[k] && nd.Step[k] >= 1 && nd.Offset[k] == pfrom(nd.OriginalDims, k+1, len(nd.Dims)))
 //@   requires forall(k, 0, len(nd.Dims), nd.Dims[k] >= 1)
 //@   requires forall(j, 0, iprod(nd.Dims, len(nd.Dims)), 0 <= nd.Start + rmaddr(nd.Dims, nd.OffsetStep, j, len(nd.Dims), len(nd.Dims)) && nd.Start + rmaddr(nd.Dims, nd.OffsetStep, j, len(nd.Dims), len(nd.Dims)) < len(nd.Impl))
-//@   requires nd.Start >= 0 && lastoff(nd.Dims, nd.OffsetStep, len(nd.Dims)) >= -1 && nd.Start + lastoff(nd.Dims, nd.OffsetStep, len(nd.Dims)) < len(nd.Impl)
+//@   requires 0 <= nd.Start + rmaddr(nd.Dims, nd.OffsetStep, 0, len(nd.Dims), len(nd.Dims)) && nd.Start + rmaddr(nd.Dims, nd.OffsetStep, 0, len(nd.Dims), len(nd.Dims)) < len(nd.Impl) && 0 <= nd.Start + rmaddr(nd.Dims, nd.OffsetStep, iprod(nd.Dims, len(nd.Dims)) - 1, len(nd.Dims), len(nd.Dims)) && nd.Start + rmaddr(nd.Dims, nd.OffsetStep, iprod(nd.Dims, len(nd.Dims)) - 1, len(nd.Dims), len(nd.Dims)) < len(nd.Impl)
 //@   assigns nothing
 //@   ensures [C02.unroll-alias-iff-contiguous] iff(r.id == nd.Impl.id, contigc(nd.Dims, nd.OriginalDims, nd.Step, nd.Offset, len(nd.Dims)))
 //@   ensures [C02.unroll-contiguous-strides] implies(r.id == nd.Impl.id, forall(k, 0, len(nd.Dims), implies(nd.Dims[k] > 1, nd.OffsetStep[k] == pfrom(nd.Dims, k+1, len(nd.Dims)))))
@@ -451,16 +451,17 @@ package data
 //@ induct [C02.lemma-successor-3] using C02.lemma-pfrom-end(d, 3, 0), C02.lemma-div-succ(j, pfrom(d, 2, 3), 0), C02.lemma-div-succ(div(j, pfrom(d, 2, 3)), d[1], 0), C02.lemma-div-succ(div(j, pfrom(d, 1, 3)), d[0], 0), C02.lemma-div-div(j, pfrom(d, 2, 3), d[1], 0), C02.lemma-div-div(j+1, pfrom(d, 2, 3), d[1], 0) (v []int, w []int, d []int, j int) z : implies(j >= 0 && j < pfrom(d, 0, 3) && forall(k, 0, 3, d[k] >= 1 && v[k] == rmc(d, j, 3, k)) && forall(k, 0, carryPos(v, d, 2), w[k] == v[k]) && implies(carryPos(v, d, 2) >= 0, w[carryPos(v, d, 2)] == v[carryPos(v, d, 2)] + 1) && forall(k, carryPos(v, d, 2) + 1, 3, w[k] == 0), forall(k, 0, 3, w[k] == rmc(d, j+1, 3, k)))
 
 // General-rank interface model ("ndmodel rowmajor"): an array x of unknown back-end has
-// extents x.shape (x.rank of them) and row-major elements x.at(j), j < iprod(x.shape).
+// extents x.shape - the slice its Shape() returns (x.rank entries, an object that exists at
+// entry and that nobody writes) - and row-major elements x.at(j), j < iprod(x.shape).
 //@ iface rowmajor:Shape(x) returns (s)
-//@   ensures s.id == x.g_shapeid && len(s) == x.rank && forall(k, 0, x.rank, s[k] == x.shape[k])
+//@   ensures s.id == x.g_shapeid && s.off == 0 && len(s) == x.rank
 //@   assigns nothing
 //@ iface rowmajor:Get(x, loc) returns (v)
 //@   requires len(loc) == x.rank && forall(k, 0, x.rank, 0 <= loc[k] && loc[k] < x.shape[k])
 //@   ensures forall(j, 0, iprod(x.shape, x.rank), implies(forall(k, 0, x.rank, loc[k] == rmc(x.shape, j, x.rank, k)), v == x.at(j)))
 //@   assigns nothing
 //@ iface rowmajor:Unroll(x) returns (r)
-//@   ensures len(r) == iprod(x.shape, x.rank) && forall(j, 0, iprod(x.shape, x.rank), r[j] == x.at(j))
+//@   ensures r.id == x.g_unrollid && r.off == 0 && len(r) == iprod(x.shape, x.rank) && forall(j, 0, iprod(x.shape, x.rank), r[j] == x.at(j))
 //@   assigns nothing
 
 // stride of axis k of the slice taken with step st (ns = 1: no step vector, every step is 1)
@@ -471,3 +472,52 @@ package data
 //@ induct [C01.lemma-sladdr-rmaddr] (d []int, os []int, st []int, ns int, w []int, j int, N int) n : implies(forall(k, 0, n, w[k] == sstride(os, st, ns, k)), rmaddr(d, w, j, N, n) == sladdr(d, os, st, ns, j, N, n))
 // an all-zero index vector addresses offset 0
 //@ induct [C01.lemma-idot-zero] (a []int, os []int) n : implies(forall(k, 0, n, a[k] == 0), idot(a, os, n) == 0)
+// the same for every row-major position of the block (induction variable unused)
+//@ induct [C01.lemma-sladdr-rmaddr-all] using C01.lemma-sladdr-rmaddr (d []int, os []int, st []int, ns int, w []int, N int) z : implies(forall(k, 0, N, w[k] == sstride(os, st, ns, k)), forall(j, 0, iprod(d, N), rmaddr(d, w, j, N, N) == sladdr(d, os, st, ns, j, N, N)))
+//@ func (*nd{t}).ApplySlice(nd, loc, step, vals)
+//@   ndmodel rowmajor
+//@   simplify entry-ids
+//@   bounded rank <= 3 (the mixed-radix successor lemma is proved for ranks 1, 2 and 3; extents, strides and steps are symbolic)
+//@   instantiate C02.lemma-iprod-is-pfrom0(vals.shape, vals.rank, 0)
+//@   callsite Set instantiate C02.lemma-idot-rm(arg1, vals.shape, arg0.OffsetStep, pos, vals.rank, vals.rank)
+//@   callsite Set instantiate C01.lemma-sladdr-rmaddr(vals.shape, nd.OffsetStep, step, ite(step == nil, 1, 0), arg0.OffsetStep, pos, vals.rank, vals.rank)
+//@   loop 0 instantiate C02.lemma-successor-1(pre(seq(idx)), idx, vals.shape, pos, 0)
+//@   loop 0 instantiate C02.lemma-successor-2(pre(seq(idx)), idx, vals.shape, pos, 0)
+//@   loop 0 instantiate C02.lemma-successor-3(pre(seq(idx)), idx, vals.shape, pos, 0)
+//@   callsite copy [C01.applyslice-fast-path-target] arg0.id == nd.Impl.id && arg0.off == old(nd.Start + idot(loc, nd.OffsetStep, len(loc))) && len(arg0) == iprod(vals.shape, vals.rank) && len(arg1) == iprod(vals.shape, vals.rank) && arg1.id != nd.Impl.id && forall(j, 0, iprod(vals.shape, vals.rank), arg1[j] == vals.at(j))
+//@   callsite copy [C01.applyslice-fast-path-addresses] forall(j, 0, iprod(vals.shape, vals.rank), sladdr(vals.shape, nd.OffsetStep, step, ite(step == nil, 1, 0), j, vals.rank, vals.rank) == j)
+//@   requires vals != nil && 1 <= vals.rank && vals.rank <= 3 && forall(k, 0, vals.rank, vals.shape[k] >= 1)
+//@   requires len(nd.OffsetStep) == vals.rank && len(nd.Offset) == vals.rank && len(nd.Step) == vals.rank && len(loc) == vals.rank && (step == nil || len(step) >= vals.rank)
+//@   requires forall(k, 0, len(nd.OffsetStep), nd.OffsetStep[k] == nd.Offset[k]*nd.Step[k] && nd.Step[k] >= 1 && nd.Offset[k] == pfrom(nd.OriginalDims, k+1, len(nd.OffsetStep)))
+//@   requires len(nd.OriginalDims) == vals.rank && (step == nil || forall(k, 0, vals.rank, step[k] >= 1))
+//@   requires nd.Impl.id != vals.g_unrollid
+//@   callsite Unroll instantiate C01.lemma-sladdr-rmaddr-all(vals.shape, nd.OffsetStep, step, ite(step == nil, 1, 0), arg0.OffsetStep, vals.rank, 0)
+//@   requires nd.Impl.id != loc.id && nd.Impl.id != nd.OffsetStep.id && nd.Impl.id != nd.Offset.id && nd.Impl.id != nd.Step.id && nd.Impl.id != nd.Dims.id && nd.Impl.id != nd.OriginalDims.id && nd.Impl.id != vals.g_shapeid && nd.Impl.id != step.id
+//@   requires forall(j, 0, iprod(vals.shape, vals.rank), 0 <= nd.Start + idot(loc, nd.OffsetStep, len(loc)) + sladdr(vals.shape, nd.OffsetStep, step, ite(step == nil, 1, 0), j, vals.rank, vals.rank) && nd.Start + idot(loc, nd.OffsetStep, len(loc)) + sladdr(vals.shape, nd.OffsetStep, step, ite(step == nil, 1, 0), j, vals.rank, vals.rank) < len(nd.Impl))
+//@   requires forall(j1, 0, iprod(vals.shape, vals.rank), forall(j2, 0, iprod(vals.shape, vals.rank), implies(j1 != j2, nd.Start + idot(loc, nd.OffsetStep, len(loc)) + sladdr(vals.shape, nd.OffsetStep, step, ite(step == nil, 1, 0), j1, vals.rank, vals.rank) != nd.Start + idot(loc, nd.OffsetStep, len(loc)) + sladdr(vals.shape, nd.OffsetStep, step, ite(step == nil, 1, 0), j2, vals.rank, vals.rank))))
+//@   assigns nd.Impl[*]
+//@   ensures [C01.applyslice-footprint,C02.applyslice-footprint] forall(j, 0, iprod(vals.shape, vals.rank), nd.Impl[old(nd.Start + idot(loc, nd.OffsetStep, len(loc))) + sladdr(vals.shape, nd.OffsetStep, step, ite(step == nil, 1, 0), j, vals.rank, vals.rank)] == vals.at(j))
+//@   loop 0 prestep [C01.applyslice-step-value] nd.Impl[old(nd.Start + idot(loc, nd.OffsetStep, len(loc))) + sladdr(vals.shape, nd.OffsetStep, step, ite(step == nil, 1, 0), pre(pos), vals.rank, vals.rank)] == vals.at(pre(pos))
+//@   loop 0 prestep [C01.applyslice-step-frame] forall(p, 0, len(nd.Impl), implies(p != old(nd.Start + idot(loc, nd.OffsetStep, len(loc))) + sladdr(vals.shape, nd.OffsetStep, step, ite(step == nil, 1, 0), pre(pos), vals.rank, vals.rank), nd.Impl[p] == pre(nd.Impl[p])))
+//@   loop 0 invariant 0 <= pos && pos <= size && size == iprod(vals.shape, vals.rank) && len(idx) == vals.rank && len(shape) == vals.rank
+//@   loop 0 invariant forall(k, 0, vals.rank, shape[k] == vals.shape[k] && idx[k] == rmc(vals.shape, pos, vals.rank, k))
+//@   loop 0 invariant as(slice, nd{t}).Start == old(nd.Start + idot(loc, nd.OffsetStep, len(loc))) && len(as(slice, nd{t}).OffsetStep) == vals.rank && as(slice, nd{t}).Impl == nd.Impl
+//@   loop 0 invariant forall(k, 0, vals.rank, as(slice, nd{t}).OffsetStep[k] == sstride(nd.OffsetStep, step, ite(step == nil, 1, 0), k))
+//@   loop 0 invariant forall(j, 0, pos, nd.Impl[old(nd.Start + idot(loc, nd.OffsetStep, len(loc))) + sladdr(vals.shape, nd.OffsetStep, step, ite(step == nil, 1, 0), j, vals.rank, vals.rank)] == vals.at(j))
+//@   loop 0 invariant implies(pos < size, 0 <= old(nd.Start + idot(loc, nd.OffsetStep, len(loc))) + sladdr(vals.shape, nd.OffsetStep, step, ite(step == nil, 1, 0), pos, vals.rank, vals.rank) && old(nd.Start + idot(loc, nd.OffsetStep, len(loc))) + sladdr(vals.shape, nd.OffsetStep, step, ite(step == nil, 1, 0), pos, vals.rank, vals.rank) < len(nd.Impl))
+
+
+//@ func (*nd{t}).CopyFrom(nd, other)
+//@   ndmodel rowmajor
+//@   simplify entry-ids
+//@   bounded rank <= 3 (through ApplySlice)
+//@   callsite ApplySlice instantiate C01.lemma-idot-zero(arg1, nd.OffsetStep, len(arg1))
+//@   requires other != nil && 1 <= other.rank && other.rank <= 3 && forall(k, 0, other.rank, other.shape[k] >= 1)
+//@   requires len(nd.Dims) == other.rank && len(nd.OffsetStep) == other.rank && len(nd.Offset) == other.rank && len(nd.Step) == other.rank
+//@   requires forall(k, 0, len(nd.OffsetStep), nd.OffsetStep[k] == nd.Offset[k]*nd.Step[k] && nd.Step[k] >= 1 && nd.Offset[k] == pfrom(nd.OriginalDims, k+1, len(nd.OffsetStep)))
+//@   requires len(nd.OriginalDims) == other.rank && nd.Impl.id != other.g_unrollid && nd.Impl.id != 0
+//@   requires nd.Impl.id != nd.OffsetStep.id && nd.Impl.id != nd.Offset.id && nd.Impl.id != nd.Step.id && nd.Impl.id != nd.Dims.id && nd.Impl.id != nd.OriginalDims.id && nd.Impl.id != other.g_shapeid
+//@   requires forall(j, 0, iprod(other.shape, other.rank), 0 <= nd.Start + sladdr(other.shape, nd.OffsetStep, nilints, 1, j, other.rank, other.rank) && nd.Start + sladdr(other.shape, nd.OffsetStep, nilints, 1, j, other.rank, other.rank) < len(nd.Impl))
+//@   requires forall(j1, 0, iprod(other.shape, other.rank), forall(j2, 0, iprod(other.shape, other.rank), implies(j1 != j2, nd.Start + sladdr(other.shape, nd.OffsetStep, nilints, 1, j1, other.rank, other.rank) != nd.Start + sladdr(other.shape, nd.OffsetStep, nilints, 1, j2, other.rank, other.rank))))
+//@   assigns nd.Impl[*]
+//@   ensures [C01.copyfrom-footprint,C02.copyfrom-footprint] forall(j, 0, iprod(other.shape, other.rank), nd.Impl[old(nd.Start) + sladdr(other.shape, nd.OffsetStep, nilints, 1, j, other.rank, other.rank)] == other.at(j))
